@@ -12,6 +12,10 @@ Plan gen_c20(uint64_t seed, int tier)
   p.profile = "C20";
   p.seed = seed;
   int fo = r.pick<int>({0, 1, 1, 5});
+  if (Rng(seed ^ 0xd20).chance(1, 6))
+  {
+    fo = 3; // UnboundedDropping: growth, shrink requests and reclamation work the same way there
+  }
   p.cfg["fo"] = fo;
   FOInfo fi = fo_info(fo);
   gen_sched(p, r);
